@@ -105,3 +105,7 @@ func ovlResult(t *testing.T, prop, stage, rule string) *vr.Result {
 }
 
 var _ = fmt.Sprint
+
+func lib_NewDir(cfg string) (interface{ Check() error }, error) {
+	return libNewDirFromConfig(cfg)
+}
